@@ -1,10 +1,15 @@
 // E5: the lazy_static table US_KEYBOARD_LAYOUT is replaced by an accessor with an assumed contract.
 // (lazy_static! cannot be expanded by single-file Verus; what is trusted: `get` behaves like HashMap::get on the
 // table built by _us_keyboard_layout, i.e. it returns None or a reference to one of the five row slices.)
+/// the table as a function: the keys of a physical row, left to right - uninterpreted; compared with the US-QWERTY layout by the enumeration `tables`
+pub uninterp spec fn ukl_row(r: Row) -> Option<Seq<KeyCode>>;
 pub struct UKL {}
 impl UKL {
   #[verifier::external_body]
   pub fn get(&self, r: &Row) -> (res: Option<&&'static [KeyCode]>)
+    ensures
+      //@ C13 | ASSUMED (E5): a lookup in the immutable table is a function of the row
+      match res { Some(sl) => ukl_row(*r) == Some((**sl)@), None => ukl_row(*r) is None },
   { unimplemented!() }
 }
 pub exec static US_KEYBOARD_LAYOUT: UKL ensures true { UKL{} }
